@@ -1018,6 +1018,10 @@ def compile_comprehension(compiler, expr, root, parts, final):
                 tag0, (target0, iter0) = parts[0]
                 ret += iter0
                 lead_iter = iter0.force_expr
+                if isinstance(lead_iter, ast.Starred):
+                    # As a call argument it would be unpacked.
+                    compiler._syntax_error(
+                        expr, "can't use starred expression here")
                 lead_param = compiler.get_anon_var()
                 parts[0] = Tag(tag0, [target0, Result(expr=asty.Name(
                     lead_iter, id=lead_param, ctx=ast.Load()))])
